@@ -1,7 +1,7 @@
 (** C03 — property theorems only; each closed by [exact] of a lemma proved elsewhere. *)
 From Coq Require Import ZArith List Bool.
 From VB Require Import Score.CInt Gen.KeystoneGen Gen.ScoreParams Score.KeystoneDefs Score.KeystoneProofs
-  Score.CmpDefs Score.CmpProofs Score.CmpSym.
+  Score.CmpDefs Score.CmpProofs Score.CmpSym Score.ViewDefs Score.ViewProofs.
 Import ListNotations.
 Local Open Scope Z_scope.
 
@@ -158,3 +158,49 @@ Theorem C03_view_empty_iff_not_crossed :
     (view_size fork tip ki = 0 <-> m_crossed fork tip ki = false).
 Proof. exact view_empty_iff_not_crossed. Qed.
 Print Assumptions C03_view_empty_iff_not_crossed.
+
+(** *** getKeystoneContext as coded (with the optional time adjustment) = minimum of the adjusted heights *)
+
+Theorem C03_ktx_eq_spec :
+  forall ta chain T hs, ktx ta chain T hs = ktx_spec ta chain T hs.
+Proof. exact ktx_eq_spec. Qed.
+Print Assumptions C03_ktx_eq_spec.
+
+Theorem C03_ktx_is_min :
+  forall ta chain T hs,
+    (forall h j, In h hs -> adjust ta chain T h = Some j ->
+       exists m, ktx ta chain T hs = Some m /\ (m <= j)%nat) /\
+    (forall m, ktx ta chain T hs = Some m -> exists h, In h hs /\ adjust ta chain T h = Some m) /\
+    (ktx ta chain T hs = None <-> forall h, In h hs -> adjust ta chain T h = None).
+Proof. exact ktx_is_min. Qed.
+Print Assumptions C03_ktx_is_min.
+
+Theorem C03_ktx_order_independent :
+  forall ta chain T hs hs', Permutation.Permutation hs hs' -> ktx ta chain T hs = ktx ta chain T hs'.
+Proof. exact ktx_order_independent. Qed.
+Print Assumptions C03_ktx_order_independent.
+
+Theorem C03_adjust_ge :
+  forall ta chain T h j, adjust ta chain T h = Some j -> (h <= j)%nat.
+Proof. exact adjust_ge. Qed.
+Print Assumptions C03_adjust_ge.
+
+Theorem C03_adjust_later :
+  forall chain T h j, adjust true chain T h = Some j -> T < nth j chain 0.
+Proof. exact adjust_later. Qed.
+Print Assumptions C03_adjust_later.
+
+Theorem C03_adjust_mono :
+  forall ta chain T h1 h2, (h1 <= h2)%nat -> (h2 < length chain)%nat ->
+    match adjust ta chain T h1, adjust ta chain T h2 with
+    | Some a, Some b => (a <= b)%nat
+    | None, Some _ => False
+    | _, None => True
+    end.
+Proof. exact adjust_mono. Qed.
+Print Assumptions C03_adjust_mono.
+
+Theorem C03_ktx_off :
+  forall chain T hs, ktx false chain T hs = fold_left omin (map Some hs) None.
+Proof. exact ktx_off. Qed.
+Print Assumptions C03_ktx_off.
